@@ -18,7 +18,8 @@ variable {τ : Type} [DecidableEq τ]
     book: it is sent `runtests_all` followed by the shutdown signal, its book becomes its whole collection -/
 theorem C08_schedule_new_node (s : State τ) (e : Env) (n : Nat) (t : List Nat) (col : List τ)
     (hs : s.started.contains n = false) (hc : AList.lookup s.node2collection n = some col)
-    (hb : AList.lookup s.node2pending n = some []) (hbr : (e.flags.get n).broken = false) :
+    (hb : AList.lookup s.node2pending n = some []) (hbr : (e.flags.get n).broken = false)
+    (hsd : e.flags.shuttingDown n = false) :
     scheduleLoop s e (n :: t) =
       scheduleLoop { s with node2pending := s.node2pending.set n (List.range col.length), started := s.started ++ [n] }
         ((e.emit (.runAll n)).shutdown n) t := by
@@ -27,18 +28,37 @@ theorem C08_schedule_new_node (s : State τ) (e : Env) (n : Nat) (t : List Nat) 
   have hgetc : s.node2collection.get n = .ok col := AList.get_eq_ok.2 hc
   rw [scheduleLoop]
   simp only [hs, Bool.false_eq_true, ↓reduceIte, hcc, Bool.not_true]
-  simp [hget, hgetc, bind, Except.bind, Env.sendRunAll, Env.send, hbr, pure, Except.pure]
+  simp [hget, hgetc, bind, Except.bind, Env.sendRunAll, Env.send, hbr, hsd, pure, Except.pure]
+
+/-- a node that is already down when `schedule()` reaches it (its channel is closed) is sent nothing; its book still
+    becomes its whole collection, so that `remove_node` parks it for the replacement -/
+theorem C08_schedule_new_node_down (s : State τ) (e : Env) (n : Nat) (t : List Nat) (col : List τ)
+    (hs : s.started.contains n = false) (hc : AList.lookup s.node2collection n = some col)
+    (hb : AList.lookup s.node2pending n = some []) (hsd : e.flags.shuttingDown n = true) :
+    scheduleLoop s e (n :: t) =
+      scheduleLoop { s with node2pending := s.node2pending.set n (List.range col.length), started := s.started ++ [n] } e t := by
+  have hcc : s.node2collection.contains n = true := by simp [AList.contains, hc]
+  have hget : s.node2pending.get n = .ok [] := AList.get_eq_ok.2 hb
+  have hgetc : s.node2collection.get n = .ok col := AList.get_eq_ok.2 hc
+  have hshut : e.shutdown n = e := by
+    unfold Env.shutdown
+    unfold Flags.shuttingDown at hsd
+    simp [hsd]
+  rw [scheduleLoop]
+  simp only [hs, Bool.false_eq_true, ↓reduceIte, hcc, Bool.not_true]
+  simp [hget, hgetc, bind, Except.bind, hsd, pure, Except.pure, hshut]
 
 /-- a node that takes over a remainder is sent exactly that remainder -/
 theorem C08_schedule_replacement (s : State τ) (e : Env) (n : Nat) (t : List Nat) (col : List τ) (i : Nat) (rest : List Nat)
     (hs : s.started.contains n = false) (hc : AList.lookup s.node2collection n = some col)
-    (hb : AList.lookup s.node2pending n = some (i :: rest)) (hbr : (e.flags.get n).broken = false) :
+    (hb : AList.lookup s.node2pending n = some (i :: rest)) (hbr : (e.flags.get n).broken = false)
+    (hsd : e.flags.shuttingDown n = false) :
     scheduleLoop s e (n :: t) = scheduleLoop { s with started := s.started ++ [n] } (e.emit (.run n (i :: rest))) t := by
   have hcc : s.node2collection.contains n = true := by simp [AList.contains, hc]
   have hget : s.node2pending.get n = .ok (i :: rest) := AList.get_eq_ok.2 hb
   rw [scheduleLoop]
   simp only [hs, Bool.false_eq_true, ↓reduceIte, hcc, Bool.not_true]
-  simp [hget, bind, Except.bind, Env.sendRun, Env.send, hbr, pure, Except.pure]
+  simp [hget, bind, Except.bind, Env.sendRun, Env.send, hbr, hsd, pure, Except.pure]
 
 /-- started nodes and late nodes that are still collecting are left alone -/
 theorem C08_schedule_skips (s : State τ) (e : Env) (n : Nat) (t : List Nat)
